@@ -29,8 +29,10 @@ pub static DEF: PropertyDef = PropertyDef {
     generate,
     execute,
     must_hit: &["fault.pause.fired", "fault.paused_call.refused", "probe.async_pause_with_snapshot", "probe.async_pause", "fault.pause.every_read_schedule", "fault.pause.resumed_plain", "fault.pause.resumed_sliced"],
-    timeout_s: 60,
-    hang_class: None,
+    // a case normally takes well under a second; one that never finishes (a call accepted while paused can
+    // leave the story spinning outside the step loop, where no fuel is burnt) is a story that did not become usable again
+    timeout_s: 30,
+    hang_class: Some("stuck-async"),
     sub_builds: &[],
     stack_mb: 64,
 };
